@@ -232,6 +232,10 @@ class Impl:
     def op_fn_oracle(self, f, x, gn, vn): self.o[gn], self.o[vn] = self.o[f].oracle(self.o[x]); return "ok"
     def op_fn_gradient(self, f, x, gn): self.o[gn] = self.o[f].gradient(self.o[x]); return "ok"
     def op_fn_value(self, f, x, vn): self.o[vn] = self.o[f].value(self.o[x]); return "ok"
+    # the documented aliases: `f.subgradient(x)` is `f.gradient(x)`, `f(x)` is `f.value(x)`, `-f` is `(-1) * f`
+    def op_fn_subgradient(self, f, x, gn): self.o[gn] = self.o[f].subgradient(self.o[x]); return "ok"
+    def op_fn_call(self, f, x, vn): self.o[vn] = self.o[f](self.o[x]); return "ok"
+    def op_fn_neg(self, n, a): self.o[n] = -self.o[a]; return "ok"
     def op_fn_stat(self, f, xn, vn):
         x, g, v = self.o[f].stationary_point(return_gradient_and_function_value=True); self.o[xn] = x; self.o[vn] = v; return "ok"
     def op_fn_fixed(self, f, xn): self.o[xn] = self.o[f].fixed_point()[0]; return "ok"
@@ -625,13 +629,15 @@ class Prog:
                 x = self.rnd.choice(self.P) if self.P and self.rnd.random() < .7 else self.point()
                 g, v = self.newp(), self.newe(); self.emit("fn.oracle %s %s %s %s" % (f, x, g, v))
             elif r < .65:
-                x = self.rnd.choice(self.P) if self.P else self.point(); g = self.newp(); self.emit("fn.gradient %s %s %s" % (f, x, g))
+                x = self.rnd.choice(self.P) if self.P else self.point(); g = self.newp()
+                self.emit("%s %s %s %s" % ("fn.subgradient" if det_choice(len(self.lines), f + x + g, 3) == 0 else "fn.gradient", f, x, g))
             elif r < .8:
                 x, v = self.newp(), self.newe(); self.emit("fn.stat %s %s %s" % (f, x, v))
             elif r < .9:
                 x = self.newp(); self.emit("fn.fixed %s %s" % (f, x))
             else:
-                x = self.rnd.choice(self.P) if self.P else self.point(); v = self.newe(); self.emit("fn.value %s %s %s" % (f, x, v))
+                x = self.rnd.choice(self.P) if self.P else self.point(); v = self.newe()
+                self.emit("%s %s %s %s" % ("fn.call" if det_choice(len(self.lines), f + x + v, 2) == 0 else "fn.value", f, x, v))
 
 
 def gen_class(seed):
@@ -696,6 +702,8 @@ def gen_collect(seed):
             p.emit("fn.setname %s %s" % (f_, "obj" if same and i_ < 2 else "fun%d" % i_))
     for _ in range(rnd.randint(0, 2)):
         a, b = rnd.choice(p.F), rnd.choice(p.F); n = p.newf(); p.emit("fn.lin %s %s %s %s %s" % (n, rnd.choice(W), a, rnd.choice(W), b))
+    if det_choice(seed, "fneg", 5) == 0:
+        a = p.F[det_choice(seed, "fnegwhich", len(p.F))]; n = p.newf(); p.emit("fn.neg %s %s" % (n, a))           # `-f` written directly
     for _ in range(rnd.randint(14, 44) if big else rnd.randint(2, 8)):
         f = rnd.choice(p.F)
         if p.fcls.get(f) == "LinearOperator" and rnd.random() < .3:
